@@ -45,6 +45,29 @@ def strip_deref_calls(e):
     return tuple(strip_deref_calls(x) if isinstance(x, tuple) else x for x in e)
 
 
+def _is_length_pair(a, b):
+    """(`<root>.length`, `<root>.slice.len()`) in either order: the root both sides talk about, or None."""
+    for x, y in ((a, b), (b, a)):
+        if x[0] == "proj" and x[2][-1:] == ("length",) and y[0] == "call" and y[2] == "len" and y[3]:
+            z = strip_deref_calls(y[3][0])
+            if z[0] == "proj" and z[2][-1:] == ("slice",) and z[1] == x[1]:
+                # root agreement; inner may be reached via `.inner` of the protected wrapper on both sides
+                return x[1]
+    return None
+
+
+def _tuple_of(e):
+    """`&*&(a, b, ..)` -> the component expressions of a tuple literal compared by reference (what `assert_eq!` builds)."""
+    for _ in range(6):
+        if e[0] == "addr":
+            e = e[1]
+        elif e[0] == "proj" and e[2] == ("*",):
+            e = e[1]
+        else:
+            break
+    return e[4] if e[0] == "agg" and e[1] == "tuple" else None
+
+
 def length_check_edges(F, B):
     """Switches testing `<stored length> == <slice>.len()` on the same root: [(bb, true_target, root)]"""
     out = []
@@ -53,19 +76,31 @@ def length_check_edges(F, B):
         if tt["k"] != "switch":
             continue
         c = B.condition(tt["discr"])
-        if not c or "op" not in c or c["op"] not in ("Eq", "Ne"):
+        if not c:
+            continue
+        if "call" in c and (c["call"].get("callee") or "") in ("core::cmp::PartialEq::eq", "core::cmp::PartialEq::ne") and len(c["call"]["args"]) == 2:
+            # `(a.header.length, ..) == (a.slice.len(), ..)`: std's tuple equality holds only if every component pair is equal
+            ta, tb = (_tuple_of(symx.expr(F, B, x)) for x in c["call"]["args"])
+            if ta is None or tb is None or len(ta) != len(tb):
+                continue
+            is_eq = c["call"]["callee"].endswith("::eq")
+            for xa, xb in zip(ta, tb):
+                root = _is_length_pair(strip_deref_calls(xa), strip_deref_calls(xb))
+                if root is not None:
+                    for tgt, tv in B.switch_truth(tt).items():
+                        if ((tv != c["neg"]) == is_eq):
+                            out.append((bi, tgt, root))
+            continue
+        if "op" not in c or c["op"] not in ("Eq", "Ne"):
             continue
         a = strip_deref_calls(symx.expr(F, B, c["a"]))
         b = strip_deref_calls(symx.expr(F, B, c["b"]))
-        for x, y in ((a, b), (b, a)):
-            if x[0] == "proj" and x[2][-1:] == ("length",) and y[0] == "call" and y[2] == "len" and y[3]:
-                z = strip_deref_calls(y[3][0])
-                if z[0] == "proj" and z[2][-1:] == ("slice",) and z[1] == x[1]:
-                    # root agreement; inner may be reached via `.inner` of the protected wrapper on both sides
-                    for tgt, tv in B.switch_truth(tt).items():
-                        eq_true = (tv != c["neg"]) == (c["op"] == "Eq")
-                        if eq_true:
-                            out.append((bi, tgt, x[1]))
+        root = _is_length_pair(a, b)
+        if root is not None:
+            for tgt, tv in B.switch_truth(tt).items():
+                eq_true = (tv != c["neg"]) == (c["op"] == "Eq")
+                if eq_true:
+                    out.append((bi, tgt, root))
     return out
 
 
